@@ -303,6 +303,13 @@ def std_call(e, st, fr, fname, argv):
         if not v.items:
             return NONE()
         return some(v.items.pop())
+    if re.match(r'^(Vec::<.*>|(core|std)::slice::<impl \[.*\]>)::contains$', n):
+        _note(e, 'slice::contains (PartialEq over the elements, forking on symbolic equalities)')
+        needle = argv[1]
+        for it in vec_of(e, st, argv[0]).items:
+            if as_pybool(st, eq_val(e, st, it, needle)):
+                return True
+        return False
     if re.match(r'^(Vec::<.*>|(core|std)::slice::<impl \[.*\]>)::len$', n):
         _note(e, 'len')
         return len(vec_of(e, st, argv[0]).items)
